@@ -58,7 +58,9 @@ Qed.
 
 (* ====================================================================== rigid motions and scales *)
 Require Import MV.C07.Proofs_Rigid MV.C07.Proofs_MeshRigid MV.C07.Proofs_Angles MV.C07.Proofs_Interp MV.C07.Proofs_GB MV.C07.Proofs_Renum
-  MV.C07.Proofs_Count MV.C07.Proofs_GBfull MV.C07.Proofs_Findings MV.C07.Proofs_Circum.
+  MV.C07.Proofs_Count MV.C07.Proofs_GBfull MV.C07.Proofs_Findings MV.C07.Proofs_Circum
+  MV.C07.Proofs_Keyed MV.C07.Proofs_RenumV MV.C07.Proofs_FacePerm MV.C07.Proofs_FanRot MV.C07.Proofs_RenumFull
+  MV.C07.Proofs_MeshScale MV.C07.Proofs_C2F.
 
 (* For EVERY rotation matrix Q (Q^T Q = I, det Q = 1), EVERY translation t and EVERY well-formed mesh:
    scalar quantities are unchanged, positions move with the mesh, directions rotate. *)
@@ -129,7 +131,8 @@ Proof. unfold rot, rot345; cbn. apply vec_eq3; field. Qed.
 (* uniform scale s > 0: lengths s, areas s^2, volumes s^3, angle pairs s^2 (angles 1), cotangents 1, normals 1,
    midpoints and barycentres move with the mesh *)
 Definition scaling_statement : Prop :=
-  forall s : R, 0 < s -> let sc := scl s in
+  (* formulas *)
+  (forall s : R, 0 < s -> let sc := scl s in
   (forall A B, g_edge_length Rops (sc A) (sc B) = s * g_edge_length Rops A B) /\
   (forall A B, g_edge_middle Rops (sc A) (sc B) = sc (g_edge_middle Rops A B)) /\
   (forall A B C, g_triangle_area Rops (sc A) (sc B) (sc C) = s * s * g_triangle_area Rops A B C) /\
@@ -140,63 +143,163 @@ Definition scaling_statement : Prop :=
   (forall A B C D, g_cell_volume Rops (sc A) (sc B) (sc C) (sc D) = s * s * s * g_cell_volume Rops A B C D) /\
   (forall l, g_face_bary Rops (map sc l) = sc (g_face_bary Rops l)) /\
   (forall l, g_cell_bary Rops (map sc l) = sc (g_cell_bary Rops l)) /\
-  (forall l, g_barycenter Rops (map sc l) = sc (g_barycenter Rops l)).
+  (forall l, g_barycenter Rops (map sc l) = sc (g_barycenter Rops l))) /\
+  (* every attribute of the scaled mesh *)
+  (forall (s : R) (m : mesh R), 0 < s -> wf_mesh m -> let sc := scl s in let m' := map_mesh sc m in
+  edge_length Rops m' = map (Rmult s) (edge_length Rops m) /\
+  edge_middle_point Rops m' = map sc (edge_middle_point Rops m) /\
+  face_area Rops m' = map (Rmult (s * s)) (face_area Rops m) /\
+  face_barycenter Rops m' = map sc (face_barycenter Rops m) /\
+  corner_pairs Rops m' = map (fun p => (s * s * fst p, s * s * snd p)) (corner_pairs Rops m) /\
+  map atan2_pair (corner_pairs Rops m') = map atan2_pair (corner_pairs Rops m) /\
+  degree m' = degree m /\
+  (forall zb pi ang, angle_defects Rops zb pi ang m' = angle_defects Rops zb pi ang m) /\
+  euler_characteristic m' = euler_characteristic m /\
+  cell_volume Rops m' = map (Rmult (s * s * s)) (cell_volume Rops m) /\
+  cell_barycenter Rops m' = map sc (cell_barycenter Rops m) /\
+  (forall n, mean_edge_length Rops m' n = s * mean_edge_length Rops m n) /\
+  (forall n, mean_face_area Rops m' n = s * s * mean_face_area Rops m n) /\
+  (forall n, mean_cell_volume Rops m' n = s * s * s * mean_cell_volume Rops m n) /\
+  total_area Rops m' = s * s * total_area Rops m /\
+  barycenter Rops m' = sc (barycenter Rops m) /\
+  (* the first three vertices of every face are not collinear: unit normals, cotangents, vertex normals *)
+  (faces_nondegenerate m ->
+     face_normals Rops m' = face_normals Rops m /\
+     ((forall F, In F (faces m) -> zlen F = 3%Z) -> cotangent Rops m' = cotangent Rops m /\ cotan_weights Rops m' = cotan_weights Rops m) /\
+     (forall ang, vertex_normals Rops WUniform ang m' = vertex_normals Rops WUniform ang m /\
+                  vertex_normals Rops WAngle ang m' = vertex_normals Rops WAngle ang m) /\
+     ((forall f, (0 <= f < zlen (faces m))%Z -> 0 < znth (face_area Rops m) f 0) ->
+      (forall v, (0 <= v < zlen (verts m))%Z -> exists F, In F (faces m) /\ In v F) ->
+      forall ang, vertex_normals Rops WArea ang m' = vertex_normals Rops WArea ang m))).
 
 Lemma scaling_proof : scaling_statement.
 Proof.
-  intros s Hs sc. subst sc. repeat apply conj; intros.
-  - now apply distance_scale.
-  - apply edge_middle_scale.
-  - now apply triangle_area_scale.
-  - now apply quad_area_scale.
-  - now apply angle3_scale.
-  - now apply cotan_scale.
-  - now apply face_normal_scale.
-  - now apply cell_volume_scale.
-  - apply mean_scale.
-  - apply mean_scale.
-  - apply mean_scale.
+  split.
+  - intros s Hs sc. subst sc. repeat apply conj; intros.
+    + now apply distance_scale.
+    + apply edge_middle_scale.
+    + now apply triangle_area_scale.
+    + now apply quad_area_scale.
+    + now apply angle3_scale.
+    + now apply cotan_scale.
+    + now apply face_normal_scale.
+    + now apply cell_volume_scale.
+    + apply mean_scale.
+    + apply mean_scale.
+    + apply mean_scale.
+  - intros s m Hs WF sc m'. subst sc m'. repeat apply conj.
+    + now apply edge_length_scale.
+    + now apply edge_middle_point_scale.
+    + now apply face_area_mesh_scale.
+    + now apply face_barycenter_scale.
+    + now apply corner_pairs_scale.
+    + now apply model_angles_scale.
+    + apply degree_scale.
+    + intros. apply angle_defects_scale.
+    + apply euler_scale.
+    + now apply cell_volume_mesh_scale.
+    + now apply cell_barycenter_scale.
+    + intros. now apply mean_edge_length_scale.
+    + intros. now apply mean_face_area_scale.
+    + intros. now apply mean_cell_volume_scale.
+    + now apply total_area_scale.
+    + apply barycenter_mesh_scale.
+    + intros ND. split; [now apply face_normals_scale|]. split.
+      * intros TRI. split; [now apply cotangent_scale|now apply cotan_weights_scale].
+      * split.
+        -- intros ang. split; apply vertex_normals_scale_uniform_angle; auto.
+        -- intros POS USED ang. now apply vertex_normals_scale_area.
 Qed.
 
 (* ====================================================================== renumbering *)
 Definition renumbering_statement : Prop :=
-  (forall (m m' : mesh R) (sigma : Z -> Z), wf_mesh m ->
+  (* (a) renumbering the vertices by sigma (injective on the vertex range); the renumbered mesh may store an edge in
+         either orientation.  Per-edge/face/corner/cell attributes are unchanged, per-vertex attributes move with sigma *)
+  (forall (m m' : mesh R) (sigma : Z -> Z) (sw : Z * Z -> bool), wf_mesh m ->
+     let nV := zlen (verts m) in
+     zlen (verts m') = nV ->
+     (forall u v, (0 <= u < nV)%Z -> (0 <= v < nV)%Z -> sigma u = sigma v -> u = v) ->
+     (forall v, (0 <= v < nV)%Z -> (0 <= sigma v < nV)%Z) ->
      (forall v, in_rng m v -> P Rops m' (sigma v) = P Rops m v) ->
      faces m' = map (map sigma) (faces m) -> cells m' = map (map sigma) (cells m) ->
-     edges m' = map (fun e => (sigma (fst e), sigma (snd e))) (edges m) ->
-     edge_length Rops m' = edge_length Rops m /\ edge_middle_point Rops m' = edge_middle_point Rops m /\
-     face_area Rops m' = face_area Rops m /\ face_normals Rops m' = face_normals Rops m /\
-     face_barycenter Rops m' = face_barycenter Rops m /\ corner_pairs Rops m' = corner_pairs Rops m /\
-     cotangent Rops m' = cotangent Rops m /\ cell_volume Rops m' = cell_volume Rops m /\
-     cell_barycenter Rops m' = cell_barycenter Rops m /\ total_area Rops m' = total_area Rops m) /\
-  (* rotating the vertex list of a face *)
+     edges m' = map (fun e => if sw e then (sigma (snd e), sigma (fst e)) else (sigma (fst e), sigma (snd e))) (edges m) ->
+     (edge_length Rops m' = edge_length Rops m /\ edge_middle_point Rops m' = edge_middle_point Rops m /\
+      face_area Rops m' = face_area Rops m /\ face_normals Rops m' = face_normals Rops m /\
+      face_barycenter Rops m' = face_barycenter Rops m /\ corner_pairs Rops m' = corner_pairs Rops m /\
+      cotangent Rops m' = cotangent Rops m /\ cell_volume Rops m' = cell_volume Rops m /\
+      cell_barycenter Rops m' = cell_barycenter Rops m /\ total_area Rops m' = total_area Rops m) /\
+     (forall v, (0 <= v < nV)%Z ->
+        znth (degree m') (sigma v) 0%Z = znth (degree m) v 0%Z /\
+        znth (border_flags m') (sigma v) false = znth (border_flags m) v false /\
+        (forall zb pi ang, znth (angle_defects Rops zb pi ang m') (sigma v) 0 = znth (angle_defects Rops zb pi ang m) v 0) /\
+        (forall w ang, znth (vertex_normals Rops w ang m') (sigma v) (vzero Rops) = znth (vertex_normals Rops w ang m) v (vzero Rops)) /\
+        (forall w area ang fattr,
+           znth (interpolate_faces_to_vertices Rops 0 Rplus (smul_l Rops) Rdiv w area ang m' fattr) (sigma v) 0
+           = znth (interpolate_faces_to_vertices Rops 0 Rplus (smul_l Rops) Rdiv w area ang m fattr) v 0) /\
+        (forall w ang cattr,
+           match average_corners_to_vertices Rops 0 Rplus (smul_l Rops) Rdiv w ang m' cattr,
+                 average_corners_to_vertices Rops 0 Rplus (smul_l Rops) Rdiv w ang m cattr with
+           | Some l', Some l => znth l' (sigma v) 0 = znth l v 0
+           | None, None => True
+           | _, _ => False
+           end))) /\
+  (* (b) rotating the vertex list of a face: area of EVERY polygon (triangle, quad, fan of an n-gon - planar or not),
+         normal and cotangents of a triangle, barycentre of any polygon *)
   (forall A B C : V3, g_triangle_area Rops B C A = g_triangle_area Rops A B C /\
                       g_face_normal Rops B C A = g_face_normal Rops A B C /\
                       g_cot_face Rops B C A = tl (g_cot_face Rops A B C) ++ [hd 0 (g_cot_face Rops A B C)] /\
                       g_distance Rops A B = g_distance Rops B A) /\
   (forall A B C D : V3, g_quad_area Rops B C D A = g_quad_area Rops A B C D) /\
-  (forall a b : list V3, g_face_bary Rops (b ++ a) = g_face_bary Rops (a ++ b)).
+  (forall pts : list V3, g_face_area Rops (rot1 pts) = g_face_area Rops pts) /\
+  (forall a b : list V3, g_face_bary Rops (b ++ a) = g_face_bary Rops (a ++ b)) /\
+  (* (c) permuting the face list and rotating each face (drel), every face carrying its value, its area weight and its
+         corner-angle weights along: the faces->vertices accumulation is unchanged, for every weighting, for scalar and
+         for vector (normals) attributes - one generic lemma on commutative accumulation (Proofs_FacePerm) *)
+  (forall (w : weighting) (D D' : list (@dface R R)) (mm mm' : mesh R),
+     Forall wfd D -> Forall wfd D' -> drel D D' -> faces mm = d_faces D -> faces mm' = d_faces D' ->
+     zlen (verts mm') = zlen (verts mm) ->
+     interpolate_faces_to_vertices Rops 0 Rplus (smul_l Rops) Rdiv w (d_areas D') (d_angs D') mm' (d_vals D')
+     = interpolate_faces_to_vertices Rops 0 Rplus (smul_l Rops) Rdiv w (d_areas D) (d_angs D) mm (d_vals D)) /\
+  (forall (w : weighting) (D D' : list (@dface R V3)) (mm mm' : mesh R),
+     Forall wfd D -> Forall wfd D' -> drel D D' -> faces mm = d_faces D -> faces mm' = d_faces D' ->
+     zlen (verts mm') = zlen (verts mm) ->
+     interpolate_faces_to_vertices Rops (vzero Rops) (vadd Rops) (vscale Rops) (vdiv Rops) w (d_areas D') (d_angs D') mm' (d_vals D')
+     = interpolate_faces_to_vertices Rops (vzero Rops) (vadd Rops) (vscale Rops) (vdiv Rops) w (d_areas D) (d_angs D) mm (d_vals D)).
 
 Lemma distance_sym (A B : V3) : g_distance Rops A B = g_distance Rops B A.
-Proof. rewrite !distance_def. f_equal. ring. Qed.
+Proof. apply distance_symm. Qed.
 
 Lemma renumbering_proof : renumbering_statement.
 Proof.
   repeat apply conj.
-  - intros m m' sigma WF PTS FS CS ES. repeat apply conj.
-    + eapply edge_length_renum; eassumption.
-    + eapply edge_middle_point_renum; eassumption.
-    + eapply face_area_renum; eassumption.
-    + eapply face_normals_renum; eassumption.
-    + eapply face_barycenter_renum; eassumption.
-    + eapply corner_pairs_renum; eassumption.
-    + eapply cotangent_renum; eassumption.
-    + eapply cell_volume_renum; eassumption.
-    + eapply cell_barycenter_renum; eassumption.
-    + eapply total_area_renum; eassumption.
+  - intros m m' sigma sw WF nV LEN INJ MAPS PTS FS CS ES.
+    assert (FR : forall F, In F (faces m) -> forall u, In u F -> (0 <= u < nV)%Z) by (intros F HF; apply (wf_faces m WF F HF)).
+    assert (ER : forall e, In e (edges m) -> (0 <= fst e < nV)%Z /\ (0 <= snd e < nV)%Z) by (intros e He; apply (wf_edges m WF e He)).
+    split.
+    + repeat apply conj.
+      * eapply edge_length_renum_sw; eassumption.
+      * eapply edge_middle_point_renum_sw; eassumption.
+      * eapply face_area_renum; eassumption.
+      * eapply face_normals_renum; eassumption.
+      * eapply face_barycenter_renum; eassumption.
+      * eapply corner_pairs_renum; eassumption.
+      * eapply cotangent_renum; eassumption.
+      * eapply cell_volume_renum; eassumption.
+      * eapply cell_barycenter_renum; eassumption.
+      * eapply total_area_renum; eassumption.
+    + intros v Hv. repeat apply conj.
+      * eapply degree_rename; eauto.
+      * eapply border_flags_rename; eauto.
+      * intros. eapply angle_defects_rename; eauto.
+      * intros. eapply vertex_normals_rename; eauto.
+      * intros. eapply f2v_rename; eauto.
+      * intros. eapply (c2v_rename Rops m m' sigma); eauto.
   - intros A B C. repeat apply conj; [apply triangle_area_cyc|apply face_normal_cyc|apply cot_face_cyc|apply distance_sym].
   - apply quad_area_cyc.
+  - apply face_area_rot1.
   - apply face_bary_rotate.
+  - intros. now apply f2v_face_perm_scalar.
+  - intros. now apply f2v_face_perm_vector.
 Qed.
 
 (* ====================================================================== angle sum *)
@@ -281,7 +384,9 @@ Definition interpolate_constant_statement : Prop :=
   (forall w ang, w = WUniform \/ w = WAngle -> (forall k, (0 <= k < Z.of_nat nC)%Z -> 0 < znth ang k 0) ->
      average_corners_to_vertices Rops 0 Rplus (smul_l Rops) Rdiv w ang m (repeat c nC) = Some (repeat c nV)) /\
   scatter_vertices_to_corners 0 m (repeat c nV) = repeat c nC /\
-  scatter_faces_to_corners 0 m (repeat c nF) = repeat c nC.
+  scatter_faces_to_corners 0 m (repeat c nF) = repeat c nC /\
+  (forall w ang, w = WUniform \/ w = WAngle -> (forall k, (0 <= k < Z.of_nat nC)%Z -> 0 < znth ang k 0) ->
+     average_corners_to_faces Rops 0 Rplus (smul_l Rops) Rdiv w ang m (repeat c nC) = Some (repeat c nF)).
 
 Lemma interpolate_constant_proof : interpolate_constant_statement.
 Proof.
@@ -291,6 +396,7 @@ Proof.
   - intros. now apply c2v_const.
   - apply sv2c_const. intros F H. apply (HF F H).
   - apply sf2c_const.
+  - intros w ang Hw Hang. apply c2f_const; [assumption| |assumption]. intros F H. apply (HF F H).
 Qed.
 
 Example interpolate_constant_nonvacuous :
@@ -323,3 +429,10 @@ Definition face_normal_rotation_refuted_statement : Prop :=
   exists A B C D : V3,
     0 < n2 (cross (B -v A) (C -v A)) /\ 0 < n2 (cross (C -v B) (D -v B)) /\
     g_face_normal Rops A B C <> g_face_normal Rops B C D.
+
+(* FULL statement (fails): every non-degenerate triangle gets its circumcentre,
+     forall A B C, 0 < |(B-A) x (C-A)|^2 -> exists c, g_circumcenter A B C = Some c
+   (which, with C07_circumcenter, would make face_circumcenter scale-equivariant).  intersect_2lines2D's ABSOLUTE guard
+   |det| < 1e-12 refutes it for a small well-shaped triangle (legs 1e-7): *)
+Definition circumcenter_guard_refuted_statement : Prop :=
+  exists A B C : V3, 0 < n2 (cross (B -v A) (C -v A)) /\ g_circumcenter Rops A B C = None.
